@@ -244,9 +244,13 @@ def apply_op(bb, op, data, nf):
                         arg = Path(tmp) / "x.npy"
                     elif xform.endswith("seq"):
                         cut = max(1, len(Y) // 3)
-                        np.save(Path(tmp) / "x0.npy", Y[:cut])
-                        np.save(Path(tmp) / "x1.npy", Y[cut:])
-                        arg = [Path(tmp) / "x0.npy", Path(tmp) / "x1.npy"] if len(Y) > cut else [Path(tmp) / "x0.npy"]
+                        # the sequence is taken in the order GIVEN: in half of the cases the file names sort the
+                        # other way round (the second part is called x0), or numerically but not as strings
+                        n0, n1 = [("x0.npy", "x1.npy"), ("x1.npy", "x0.npy"), ("x9.npy", "x10.npy"),
+                                  ("x0.npy", "x1.npy")][(len(Y) + int(op["n_largest"])) % 4]
+                        np.save(Path(tmp) / n0, Y[:cut])
+                        np.save(Path(tmp) / n1, Y[cut:])
+                        arg = [Path(tmp) / n0, Path(tmp) / n1] if len(Y) > cut else [Path(tmp) / n0]
                     else:
                         arg = Y
                     bb.refine_inplace(arg, **kw)
